@@ -209,9 +209,14 @@ Fixpoint ap1_nat (s : N) (n : nat) : list N :=
   match n with O => [] | S k => (s mod 256) :: ap1_nat (s + 1) k end.
 Definition ap1 (s n : N) : list N := ap1_nat s (N.to_nat n).
 (* letters 'a'+k, 'a'+k+1, ... cycling through the alphabet *)
-Fixpoint az_nat (k : N) (n : nat) : list N :=
-  match n with O => [] | S j => (97 + k mod 26) :: az_nat (k + 1) j end.
-Definition az (k n : N) : list N := az_nat k (N.to_nat n).
+Definition alphabet : list N :=
+  [97; 98; 99; 100; 101; 102; 103; 104; 105; 106; 107; 108; 109; 110; 111; 112; 113; 114; 115; 116; 117; 118;
+   119; 120; 121; 122].
+Fixpoint rep_app (l : list N) (m : nat) : list N :=
+  match m with O => [] | S j => l ++ rep_app l j end.
+(* built from whole copies of the alphabet (no arithmetic per byte: fields of 128 KB are cheap) *)
+Definition az (k n : N) : list N :=
+  firstn (N.to_nat n) (skipn (N.to_nat (k mod 26)) (rep_app alphabet (N.to_nat (n / 26 + 2)))).
 
 (* ---------- inbound sequences: PUBLISH of every QoS, PUBREL, routed packets in between ---------- *)
 (* the whole broker stream read by the independent decoder *)
@@ -388,3 +393,66 @@ Definition retry_model_ok (c : retry_case) : bool :=
 
 Definition c05_retry_violations (cs : list retry_case) : list nat := indices_where (fun c => negb (retry_ok c)) cs.
 Definition c05_retry_mismatches (cs : list retry_case) : list nat := indices_where (fun c => negb (retry_model_ok c)) cs.
+
+(* ---------- length-prefixed fields around the 65,535 limit ---------- *)
+(* request; rejected (an error or the panic "string length overflow" came back); packets handed to the
+   transport (for CONNECT: everything; otherwise: everything after the session's CONNECT) *)
+Inductive lreq :=
+| LConn (c : connect)
+| LPub (m : message)               (* m_id = identifier on the wire *)
+| LSub (subs : list (str * N))
+| LUnsub (ts : list str).
+
+Definition long_case := (lreq * bool * list (list N))%type.
+
+Definition no_writes (ws : list (list N)) : bool := match ws with [] => true | _ => false end.
+
+Definition sub_decodes (subs : list (str * N)) (obs : list N) : bool :=
+  match spec_decode obs with
+  | Some (PSubscribe id ss, []) => subs_eqb ss subs && negb (id =? 0)
+  | _ => false
+  end.
+
+Definition unsub_decodes (ts : list str) (obs : list N) : bool :=
+  match spec_decode obs with
+  | Some (PUnsubscribe id tps, []) => list_eqb str_eqb tps ts && negb (id =? 0)
+  | _ => false
+  end.
+
+(* the property: EITHER rejected before anything is written OR what was written decodes to exactly the
+   requested fields (a field above 65,535 bytes cannot be carried, so it can only be rejected) *)
+Definition long_ok (c : long_case) : bool :=
+  let '(rq, rejected, ws) := c in
+  if rejected then no_writes ws else
+  match rq, ws with
+  | LConn cn, [p] => conn_hyp cn && conn_decodes cn p
+  | LPub m, _ => pub_ok (0, m, true, 0, ws)
+  | LSub subs, [p] => sub_decodes subs p
+  | LUnsub ts, [p] => unsub_decodes ts p
+  | _, _ => false
+  end.
+
+(* the model: the encoder's panic outcome (None) is the rejection, otherwise the same bytes *)
+Definition long_model_ok (c : long_case) : bool :=
+  let '(rq, rejected, ws) := c in
+  match rq with
+  | LConn cn =>
+      match pack_connect cn with
+      | None => rejected && no_writes ws
+      | Some b => negb rejected && match ws with [p] => bytes_eqb b p | _ => false end
+      end
+  | LPub m =>
+      match pack_publish m with
+      | None => rejected && no_writes ws
+      | Some _ => negb rejected && pub_model_ok (0, m, true, 0, ws)
+      end
+  | LSub subs =>
+      if rejected then no_writes ws && match pack_subscribe 1 subs with None => true | Some _ => false end
+      else match ws with [p] => obytes_eqb (pack_subscribe (packet_id_of p) subs) (Some p) | _ => false end
+  | LUnsub ts =>
+      if rejected then no_writes ws && match pack_unsubscribe 1 ts with None => true | Some _ => false end
+      else match ws with [p] => obytes_eqb (pack_unsubscribe (packet_id_of p) ts) (Some p) | _ => false end
+  end.
+
+Definition c05_long_violations (cs : list long_case) : list nat := indices_where (fun c => negb (long_ok c)) cs.
+Definition c05_long_mismatches (cs : list long_case) : list nat := indices_where (fun c => negb (long_model_ok c)) cs.
